@@ -970,7 +970,7 @@ class Exec:
                         bound[nm] = c.defaults[nm]
                     else:
                         raise Unsupported("missing arg %s for contract %s" % (nm, c.qualname))
-        site = "%s@L%s" % (c.qualname.split(".", 1)[-1], getattr(node, "lineno", "?"))
+        site = "%s@%s" % (c.qualname.split(".", 1)[-1], self.site_id(p, node))
         env = {}
         for nm, v in bound.items():
             env[nm] = self.coerce_to(p, v, c.params.get(nm), "%s.%s" % (site, nm))
@@ -1032,6 +1032,33 @@ class Exec:
         if c.result_expr is not None:
             res = post.value(c.result_expr)
         yield p, res
+
+    _site_cache = {}
+
+    def site_id(self, p, node):
+        """stable name of a call site: ordinal of the node among the nodes of its function (not the line number,
+        which shifts with every unrelated edit)"""
+        fi = p.frame.fi if p.frames else None
+        fn = getattr(fi, "node", None)
+        if fn is None or node is None:
+            return "L%s" % getattr(node, "lineno", "?")
+        key = id(fn)
+        if key not in self._site_cache:
+            calls = sorted((n for n in ast.walk(fn) if isinstance(n, (ast.Call, ast.Attribute, ast.Subscript, ast.Compare,
+                                                                      ast.BinOp, ast.Assign, ast.AugAssign, ast.Delete,
+                                                                      ast.For, ast.If, ast.UnaryOp))),
+                           key=lambda n: (n.lineno, n.col_offset))
+            seen, m = {}, {}
+            for n in calls:
+                try:
+                    txt = type(n).__name__ + ":" + ast.unparse(n.func if isinstance(n, ast.Call) else n)[:200]
+                except Exception:
+                    txt = "?"
+                seen[txt] = seen.get(txt, 0) + 1
+                m[id(n)] = seen[txt]
+            self._site_cache[key] = m
+        k = self._site_cache[key].get(id(node))
+        return "#%d" % k if k is not None else "L%s" % getattr(node, "lineno", "?")
 
     def havoc(self, p, modifies, env=None):
         for m in modifies:
